@@ -3045,7 +3045,7 @@ static void handle_define (char *yyt) {
               lexerror ("Macro text too long");
               return;
             }
-          if (!*p && p[-2] == '\\')
+          if (!*p && p - yytext >= 2 && p[-2] == '\\')
             {
               q -= 2;
               refill ();
@@ -3067,7 +3067,7 @@ static void handle_define (char *yyt) {
               lexerror ("Macro text too long");
               return;
             }
-          if (!*p && p[-2] == '\\')
+          if (!*p && p - yytext >= 2 && p[-2] == '\\')
             {
               q -= 2;
               refill ();
